@@ -799,6 +799,43 @@ class ndarray:
     def argsort(self):
         return argsort(self)
 
+    def repeat(self, n, axis=None):
+        return repeat(self, n, axis)
+
+    def squeeze(self, axis=None):
+        shape = tuple(s_ for s_ in self.shape if s_ != 1)
+        return self.reshape(shape)
+
+    def cumsum(self):
+        return cumsum(self)
+
+    def round(self, decimals=0):
+        return round_(self, decimals)
+
+    def clip(self, lo=None, hi=None):
+        def f(x):
+            if lo is not None and bool(x < lo):
+                return lo
+            if hi is not None and bool(x > hi):
+                return hi
+            return x
+        return ndarray._new([f(x) for x in self._flat()], self.shape, self.dt)
+
+    def var(self, axis=None):
+        if axis is not None:
+            _unsupported("var with axis")
+        f = self._flat()
+        m = builtins.sum(f) / len(f)
+        return builtins.sum((x - m) * (x - m) for x in f) / len(f)
+
+    def std(self, axis=None):
+        return _sqrt1(self.var(axis))
+
+    def swapaxes(self, a, b):
+        ax = list(range(self.ndim))
+        ax[a], ax[b] = ax[b], ax[a]
+        return self.transpose(ax)
+
 
 def _sidx(x):
     return None if x is None else _index(x)
